@@ -66,6 +66,8 @@ def _call(g, taint, kind='call', args=None, unsafe_meta=False):
     tag = f'!{kind}:simrec.f_{f}'
     if unsafe_meta:
         tag += "{{'safe': False}}"
+    elif g.r.random() < 0.08:
+        tag += "{{'safe': True}}"     # an explicit "safe" mark changes nothing: it cannot make anything safer than its surroundings
     if args is None:
         args = {k: _sv(g.tok(taint)) for k in g.r.sample(['a', 'b', 'c'], g.r.randrange(0, 3))}
     return tag + ' {' + ', '.join(f'{k}: {v}' for k, v in args.items()) + '}'
@@ -257,7 +259,7 @@ def _gen_build(r, g, class_default):
     if r.random() < 0.22:
         si = r.randrange(n_stage)
         st = stages[si]
-        how = r.choice(['source', 'meta', 'below', 'included', 'twice', 'twice'])
+        how = r.choice(['source', 'meta', 'below', 'included', 'twice', 'twice', 'marked_below', 'marked_merged'])
         if how == 'source' and st['taint'] == 'U':
             st['items'].append(['w0', _call(g, 'U', r.choice(['call', 'bind']))])
             witness = how
@@ -267,6 +269,17 @@ def _gen_build(r, g, class_default):
         elif how == 'below':
             inner = r.choice([_call(g, 'U', 'call'), '!import simrec.v_' + g.tok('U'), '!eval ' + emit.scalar_text("'" + g.tok('U') + "'")])
             st['items'].append(['w0', '!unsafe {k: [' + inner + ']}'])
+            witness = how
+        elif how == 'marked_below':
+            inner = r.choice([f"!call:simrec.f_{g.tok('U')}{{{{'safe': True}}}} {{}}", f"!bind:simrec.f_{g.tok('U')}{{{{'safe': True}}}} {{}}",
+                              f"!import{{{{'safe': True}}}} simrec.v_{g.tok('U')}", "!eval{{'safe': True}} " + emit.scalar_text("'" + g.tok('U') + "'")])
+            st['items'].append(['w0', r.choice(['!unsafe {k: [' + inner + ']}', '!unsafe [{k: ' + inner + '}]', '!unsafe {k: ' + inner + '}'])])
+            witness = how
+        elif how == 'marked_merged' and n_stage >= 2:
+            # the node carries an explicit "safe" mark; the mapping it lives in is marked !unsafe by another stage
+            sj = r.choice([j for j in range(n_stage) if j != si])
+            st['items'].append(['w0', "{c: " + f"!call:simrec.f_{g.tok('U')}{{{{'safe': True}}}} {{}}" + "}"])
+            stages[sj]['items'].append(['w0', '!unsafe {z: 1}'])
             witness = how
         elif how == 'twice' and st['taint'] == 'S':
             fn = g.fname('twice')
@@ -309,7 +322,11 @@ def _gen_build(r, g, class_default):
             bad_safe = r.choice([True, False])
             sources.append({'safe': bad_safe, 'taint': 'X', 'text': '{zz: ' + _sv(g.tok('U' if bad_safe is False or not class_default else 'S')) + '}\n---\n{q: [1, 2\n',
                             'filename': None, 'fails': True})
-    return {'sources': sources, 'witness': witness}
+    api = 'each'
+    if not any(src.get('fails') for src in sources) and r.random() < 0.2:
+        # the same sources handed over in one call, safety given per source or (when they all agree) once for all
+        api = 'multi_scalar' if len({src['safe'] for src in sources}) == 1 and r.random() < 0.5 else 'multi_list'
+    return {'sources': sources, 'witness': witness, 'api': api}
 
 
 def _sched_spec(r):
@@ -394,7 +411,13 @@ def _client(th, out):
             start = len(recorder.LOG)
             try:
                 b = Builder()
-                for si, src in enumerate(bd['sources']):
+                if bd.get('api', 'each') != 'each':
+                    objs = [src['path'] if 'path' in src else io.StringIO(src['stream']) if 'stream' in src else src['text'] for src in bd['sources']]
+                    raws = [False if 'path' in src else None if 'stream' in src else True for src in bd['sources']]
+                    names = [None if 'path' in src else src.get('filename') for src in bd['sources']]
+                    safes = [src['safe'] for src in bd['sources']]
+                    b.add_multiple_sources(*objs, raw_yaml=raws, filename=names, safe=(safes[0] if bd['api'] == 'multi_scalar' else safes))
+                for si, src in enumerate(bd['sources'] if bd.get('api', 'each') == 'each' else []):
                     kw = {}
                     if src['safe'] is not None:
                         kw['safe'] = src['safe']
@@ -570,6 +593,12 @@ def shrink(sc):
                     c = copy.deepcopy(sc)
                     del c['threads'][ti]['builds'][bi]['sources'][si]
                     yield c
+    for ti, th in enumerate(sc['threads']):
+        for bi, bd in enumerate(th['builds']):
+            if bd.get('api', 'each') != 'each':
+                c = copy.deepcopy(sc)
+                c['threads'][ti]['builds'][bi]['api'] = 'each'
+                yield c
     # drop single keys from flow-mapping texts
     for ti, th in enumerate(sc['threads']):
         for bi, bd in enumerate(th['builds']):
